@@ -18,5 +18,7 @@ def _leg(chk, tier, fn):
     getattr(codecx, fn)(chk, tier)
 
 def c04_leg_a(chk, tier): _leg(chk, tier, 'c04')
-def c01_leg_a(chk, tier): _leg(chk, tier, 'c01')
+def c01_leg_a(chk, tier):
+    _leg(chk, tier, 'c01')
+    _leg(chk, tier, 'bwt')
 def c09_leg_a(chk, tier): _leg(chk, tier, 'c09')
